@@ -78,7 +78,7 @@ func prop(t *rapid.T) {
 	opts := model.Options{Strict: rapid.IntRange(0, 3).Draw(t, "strict") == 0}
 	cfg := chain.ProgCfg{
 		MaxDepth: rapid.IntRange(1, ev.Pick(4, 6)).Draw(t, "maxDepth"), MaxMw: 2, MaxStmts: ev.Pick(4, 5),
-		Dynamic: true, EmptyPaths: true, AnyRoutes: true, Controllers: true,
+		Dynamic: true, EmptyPaths: true, AnyRoutes: true, Controllers: true, RootGroups: true,
 		Script: chain.ScriptCfg{Writes: true, Nexts: []int{0, 1, 1, 2}},
 	}
 	prog := chain.GenProgram(t, w, opts, cfg)
